@@ -269,6 +269,9 @@ func GenIPBlock(r *rng.R) *IPB {
 			b.Except = append(b.Except, e)
 		}
 	}
+	if len(b.Except) > 1 && r.P(0.5) { // the order of the except entries means nothing (a narrower one may stand before the wider one that contains it)
+		rng.Shuffle(r, b.Except)
+	}
 	return b
 }
 
